@@ -640,12 +640,11 @@ class AsyncBaseClientOpenTelemetry:
             span.set_attribute("query", query)
             span.set_attribute("operationName", operation_name or "")
             if variables:
+                # converted once, same dict is set on span and sent
+                variables = self._convert_dict_to_json_serializable(variables)
                 span.set_attribute(
                     "variables",
-                    json.dumps(
-                        self._convert_dict_to_json_serializable(variables),
-                        default=to_jsonable_python,
-                    ),
+                    json.dumps(variables, default=to_jsonable_python),
                 )
 
             await self._send_subscribe(
